@@ -93,6 +93,15 @@ func c07Pairs(c *Ctx) {
 		baseGroup := chGroup(c07Ranges, base.addr())
 		name := fmt.Sprintf("ok-n3-ttl300-k%dx%d.pipe.test.", i, r.Intn(1<<20))
 		qt, qc := gen.Pick(r, []uint16{dns.TypeA, dns.TypeAAAA, dns.TypeTXT, dns.TypeMX}), uint16(dns.ClassINET)
+		if i%5 == 2 {
+			// a reply that fits the 64 KiB of a stream transport only thanks to name compression
+			// (more than 65535 bytes uncompressed): the cache must hand it back unchanged all the same
+			name = fmt.Sprintf("ok-n1-ttl300-deep%d-k%dx%d.pipe.test.", r.Range(1300, 2200), i, r.Intn(1<<20))
+			qt = dns.TypeA
+			if base.Listener == "udp" {
+				base.Listener = "tcp"
+			}
+		}
 		first := h.query(b, base.Listener, base.LocalIP, base.Hdr, name, qt, qc, "store", baseGroup)
 		c.Ev.Eval(1)
 		if first.Err != "" || first.Serial == 0 {
@@ -171,7 +180,13 @@ func c07Pairs(c *Ctx) {
 				// cannot happen
 			case !known && rsp.Serial == first.Serial:
 				c.Violation("pairs:hit-on-different-key:"+v.kind, fmt.Sprintf("variant %q (client %s group %q, %s type %d class %d) differs from the stored (key, group) but was served the cached reply %d", v.kind, v.cl.addr(), g, v.name, v.qt, v.qc, first.Serial), cs)
+			case hit && v.cl.Listener != "udp" && base.Listener != "udp" && chSameModuloTTL(first.Msg, rsp.Msg) != nil && k == first.Key+"|"+baseGroup:
+				c.Violation("pairs:cached-response-changed:"+v.kind, fmt.Sprintf("variant %q was served the cached reply %d, but not as it was first relayed (%d answer records then, %d now, tc %v -> %v): %v", v.kind, rsp.Serial, len(first.Msg.Answer), len(rsp.Msg.Answer), first.Msg.Truncated, rsp.Msg.Truncated, chSameModuloTTL(first.Msg, rsp.Msg)), cs)
 			default:
+				if hit && len(first.Msg.Answer) > 300 {
+					c.Ev.Count(fmt.Sprintf("pairs_large_reply_hits_compared_tc=%v", first.Msg.Truncated), 1)
+					c.Ev.Distinct("pairs-large", len(first.Msg.Answer)/200, first.Msg.Truncated)
+				}
 				c.Ev.Distinct("pairs", v.kind, hit)
 				c.Ev.Count(fmt.Sprintf("pairs_%s_hit=%v", v.kind, hit), 1)
 			}
